@@ -320,6 +320,12 @@ func init() {
 			g.ft.FaultRate = []float64{0, 0.1, 0.3}[g.r.Intn(3)]
 			g.ft.Callbacks, g.ft.Slow = true, true
 			g.ft.PAvail = 0.95
+			if g.r.P(0.5) {
+				// declared functions: the callback Name can be checked
+				g.ft.Catalog = true
+				g.ft.NT = 6
+				g.ft.Names, g.ft.Groups = []string{"n1", "n2"}, []string{"g1", "g2"}
+			}
 		}, defaultMix),
 		Eval: evalSimple("C20", func(c *Checked) bool {
 			return c.Probes["callback_error"]+c.Probes["callback_panic"] > 0 || c.Probes["callback_runtime_checked"] > 0
@@ -361,5 +367,54 @@ func init() {
 		}, Mix{Scope: 3, Provide: 10, Decorate: 5, Invoke: 8, VisStr: 1}),
 		Eval:       evalSimple("C06", hasProbe("reuse_after_reject")),
 		WantProbes: []string{"reject_dup", "reject_cycle", "reject_decorate", "reuse_after_reject"},
+	})
+}
+
+func init() {
+	register(&ClassDef{
+		Prop: "C18",
+		Rule: "history in which an accepted registration with at least 3 declared inputs had its Info compared, and a rejected registration's Info struct was checked to be untouched",
+		Gen: genGeneric("C18", func(g *genCtx) {
+			g.ft.FaultRate, g.ft.FaultInv = 0, 0
+			g.ft.Info = true
+			g.ft.Objects = true
+			g.ft.PDup = 0.3
+			g.ft.Wild = []float64{0, 0.2}[g.r.Intn(2)]
+			g.ft.NamedSlice = g.r.P(0.3)
+			if g.r.P(0.5) {
+				g.ft.Catalog = true
+				g.ft.NT = 6
+				g.ft.Names, g.ft.Groups = []string{"n1", "n2"}, []string{"g1", "g2"}
+			}
+		}, Mix{Scope: 2, Provide: 12, Decorate: 4, Invoke: 5, VisStr: 0}),
+		Eval:       evalSimple("C18", hasProbe("info_inputs>=3", "info_rejected")),
+		WantProbes: []string{"info_accepted", "info_rejected", "info_invoke", "info_inputs>=3", "info_catalog_id"},
+	})
+}
+
+func init() {
+	register(&ClassDef{
+		Prop: "C19",
+		Rule: "history (declared catalogue functions only) in which Visualize was checked structurally on at least 3 constructors, or for the error of a failed Invoke whose failure lies at depth >= 2",
+		Gen: genGeneric("C19", func(g *genCtx) {
+			g.ft.Catalog = true
+			g.ft.NT = 6
+			g.ft.Names, g.ft.Groups = []string{"n1", "n2"}, []string{"g1", "g2"}
+			g.ft.Decorators = g.r.P(0.2)
+			g.ft.FaultRate = []float64{0, 0.15, 0.3}[g.r.Intn(3)]
+			g.ft.FaultInv = 0.05
+			g.ft.PAvail = []float64{0.8, 0.95}[g.r.Intn(2)]
+			g.ft.PRetry = 0
+			g.ft.PDup = 0.2
+			g.h.Cfg.Defer = false
+			g.m.Defer = false
+			// odd but legal types and names from the malformed grammar reach the labels
+			g.ft.MalRate = []float64{0, 0.05, 0.15}[g.r.Intn(3)]
+			g.ft.VisAfterInvoke = 0.6
+		}, Mix{Scope: 2, Provide: 12, Decorate: 1, Invoke: 6, VisStr: 6}),
+		Eval: evalSimple("C19", func(c *Checked) bool {
+			return c.Probes["dot_clusters>=3"] > 0 || c.Probes["dot_error_depth>=2"] > 0
+		}),
+		WantProbes: []string{"dot_parsed", "dot_structure_checked", "dot_clusters>=3", "dot_optional_edge", "dot_group_members_checked", "dot_error_checked", "dot_error_ctor_failure", "dot_error_missing", "dot_error_depth>=2", "canvis_checked"},
 	})
 }
